@@ -30,7 +30,7 @@ computes exactly the set operation; this module decides instance-of.
 import ast
 
 from ..model import text, AnalysisError
-from ..cfg import cfg_of, guards, enclosing_stmt, is_within, block_always_leaves, parent_block
+from ..cfg import cfg_of, guards, atomic_guards, enclosing_stmt, is_within, block_always_leaves, parent_block
 from ..effects import is_tree_loc, STATS_LOCS
 from .. import pat
 
@@ -233,8 +233,11 @@ def check_operator(ctx, op):
         anchor = stmts[0] if stmts else loop
         # -- R3 advance discipline
         adv = _advances(ctx, it, stmts, A, B)
-        if rel == "eq" and op == "__and__" and adv is None:
-            _succ_next_table(ctx, it, stmts, A, B)
+        arity = None
+        if rel == "eq" and op == "__and__":
+            arity = _arity_cases(ctx, it, loop, stmts, A, B)
+        if arity is not None:
+            _succ_next_table(ctx, it, stmts, A, B, arity)
         elif adv == want_adv[rel]:
             ctx.ok(R + "R3", it, anchor, "%s branch advances %s"
                    % (rel, sorted(adv)), text_="%s %s advance" % (op, rel))
@@ -265,18 +268,35 @@ def check_operator(ctx, op):
                 rel, "emits once" if ys else "emits nothing"),
                 text_="%s %s emission" % (op, rel))
             if ys:
-                _check_emission(ctx, it, op, rel, ys[0], stmts, A, B)
+                _check_emission(ctx, it, op, rel, ys[0], stmts, A, B, arity=arity)
     # -- R6 tails
     after = _stmts_after(it, loop_pos)
     tails = {}
     if merged_tail is not None:
         tails["A" if merged_tail[0] == A.head else "B"] = merged_tail[1]
-    for st in after:
+    # a tail may sit under tests that hold anyway once the merge loop is left
+    # with this side still present: `<own head> is not None` (the loop's own
+    # test) and `<other head> is None` (the merge loop ended, so one side did)
+    after_set = set(map(id, after))
+    for st in _walk(after):
         if isinstance(st, ast.While):
             p = pat.cmp_parts(ctx, it, st.test)
             if p and p[0] == "is not" and p[2] == "None":
                 tag = "A" if p[1] == A.head else "B" if p[1] == B.head else None
-                if tag:
+                if not tag:
+                    continue
+                own, oth = (A, B) if tag == "A" else (B, A)
+                holds = {pat.A("is not", own.head, "None"), pat.A("is", oth.head, "None")}
+                top = st
+                while id(top) not in after_set and getattr(top, "_parent", None) is not None:
+                    top = top._parent
+                if id(top) not in after_set:
+                    continue
+                gs = set() if top is st else {
+                    pat.catom(ctx, it, t, pol, False)
+                    for t, pol in atomic_guards(st, stop=top._parent, asserts=False)
+                    if any(is_within(t, a_) for a_ in after)}
+                if gs <= holds:
                     tails[tag] = st
     for tag, idx, rel, side in (("A", 3, "lt", A), ("B", 4, "gt", B)):
         want = TABLE[op][idx]
@@ -769,7 +789,7 @@ def _default_of(ctx, f, name_node, stmts, absent):
     return True, ""
 
 
-def _check_emission(ctx, f, op, rel, y, stmts, A, B, tail=False):
+def _check_emission(ctx, f, op, rel, y, stmts, A, B, tail=False, arity=None):
     R = "C04.R5"
     where = "%s %s%s" % (op, "tail " if tail else "", rel)
     v = y.value
@@ -781,9 +801,8 @@ def _check_emission(ctx, f, op, rel, y, stmts, A, B, tail=False):
     ctext = text(coord)
     present = {"eq": (A, B), "lt": (A,), "gt": (B,)}[rel]
     okc = ctext in [s.head for s in present]
-    if op == "__and__" and rel == "eq":
-        okc = ctext.replace(" ", "") == "succ_yield(%s,%s)" % (A.head, B.head)
-        _succ_yield_table(ctx, f, A, B)
+    if op == "__and__" and rel == "eq" and arity is not None:
+        okc = _succ_yield_table(ctx, f, A, B, arity)
     if not okc:
         ctx.bad(R, f, y, "%s: emits coordinate `%s`, must be the head of a "
                 "present side (%s)" % (where, ctext,
@@ -841,6 +860,201 @@ def _check_emission(ctx, f, op, rel, y, stmts, A, B, tail=False):
                     % (where, A.payload, text(pay)), text_=where + " slots")
 
 
+def _succ_next_def(d):
+    """(sides advanced, well-formed) for a closure `succ_next(a, a_coord,
+    a_payload, b, b_coord, b_payload)` returning the four next heads, None
+    when it cannot be read."""
+    ret = [x for x in ast.walk(d) if isinstance(x, ast.Return)]
+    if len(ret) != 1 or not isinstance(ret[0].value, ast.Tuple):
+        return None
+    names = [a.arg for a in d.args.args]
+    adv = set()
+    flat = []
+    for e in ret[0].value.elts:
+        if isinstance(e, ast.Starred) and isinstance(e.value, ast.Call) and \
+                text(e.value.func) == "_get_next" and e.value.args:
+            flat.append(("next", text(e.value.args[0])))
+            flat.append(("next2", text(e.value.args[0])))
+        else:
+            flat.append(("keep", text(e)))
+    if len(flat) != 4 or len(names) != 6:
+        return None
+    okshape = True
+    for i, (side, base) in enumerate((("A", 0), ("A", 0), ("B", 3), ("B", 3))):
+        kind, val = flat[i]
+        if kind.startswith("next"):
+            if val != names[base]:
+                okshape = False
+            adv.add(side)
+        else:
+            if val != names[base + 1 + (i % 2)]:
+                okshape = False
+    return adv, okshape
+
+
+def _arity_cases(ctx, it, loop, eq_stmts, A, B):
+    """What a match does in each arity case (len_a ==, <, > len_b), whatever
+    carries the case into the loop -- closures defined per case, flags set
+    per case, or the arity test repeated in the loop: {rel: (sides advanced
+    or an error text, emitted coordinate text or None, anchor)}.
+
+    The statements before the loop are read under the case (both heads
+    present, the comparison of the two arities settled); constants and local
+    functions bound there, and not re-bound in the loop, are known in the
+    loop; the match branch is read under the case and those bindings."""
+    from ..symcase import simplify, specialise
+    av = _arity_vars(it, A, B)
+    if set(av.values()) != {"A", "B"}:
+        return None
+    pb = parent_block(loop)
+    if pb is None:
+        return None
+    pre = pb[0][:pb[1]]
+    inside = set()
+    for n in _walk([loop]):
+        if isinstance(n, (ast.Assign, ast.AugAssign)):
+            for t in (n.targets if isinstance(n, ast.Assign) else [n.target]):
+                for x in ast.walk(t):
+                    if isinstance(x, ast.Name):
+                        inside.add(x.id)
+        elif isinstance(n, ast.FunctionDef):
+            inside.add(n.name)
+    heads = {A.head, B.head}
+    out = {}
+    for rel in ("eq", "lt", "gt"):
+        def arity(test, rel=rel):
+            p = pat.cmp_raw(test)
+            if p is None:
+                return None
+            op_, l, r = p
+            if l in av and r in av and av[l] != av[r]:
+                # relation of len(A) to len(B)
+                if av[l] == "B":
+                    cur = {"eq": "eq", "lt": "gt", "gt": "lt"}[rel]
+                else:
+                    cur = rel
+                return {"==": cur == "eq", "!=": cur != "eq", "<": cur == "lt",
+                        "<=": cur in ("lt", "eq")}.get(op_)
+            if op_ in ("is", "is not") and r == "None" and l in heads:
+                return op_ == "is not"
+            return None
+        consts, fdefs = {}, {}
+
+        def scan(stmts, top=True):
+            for st in stmts:
+                if isinstance(st, ast.FunctionDef):
+                    if top:
+                        fdefs[st.name] = st
+                    else:
+                        fdefs.pop(st.name, None)
+                    continue
+                if isinstance(st, ast.Assign):
+                    pairs = []
+                    for t in st.targets:
+                        if isinstance(t, ast.Name):
+                            pairs.append((t.id, st.value))
+                        elif isinstance(t, ast.Tuple) and isinstance(st.value, ast.Tuple) \
+                                and len(t.elts) == len(st.value.elts):
+                            for a_, b_ in zip(t.elts, st.value.elts):
+                                if isinstance(a_, ast.Name):
+                                    pairs.append((a_.id, b_))
+                        else:
+                            for x in ast.walk(t):
+                                if isinstance(x, ast.Name):
+                                    pairs.append((x.id, None))
+                    for nm, v in pairs:
+                        if top and isinstance(v, ast.Constant) and \
+                                isinstance(v.value, bool):
+                            consts[nm] = v.value
+                        else:
+                            consts.pop(nm, None)
+                    continue
+                for fld in ("body", "orelse", "finalbody"):
+                    sub = getattr(st, fld, None)
+                    if isinstance(sub, list):
+                        scan(sub, False)
+        scan(specialise(pre, arity))
+        for nm in inside:
+            consts.pop(nm, None)
+            fdefs.pop(nm, None)
+
+        def decide(test):
+            if isinstance(test, ast.Name) and test.id in consts:
+                return consts[test.id]
+            return arity(test)
+        spec = specialise(eq_stmts, decide)
+        adv = set()
+        err = None
+
+        def visit(stmts, cond):
+            nonlocal err
+            for st in stmts:
+                if isinstance(st, ast.Assign):
+                    na = _next_assign(st)
+                    if na:
+                        for S in (A, B):
+                            if na[0] == S.head:
+                                if cond:
+                                    err = "advances side %s only under `%s`" % (S.tag, cond)
+                                elif na[1] == S.payload and na[2] == S.itvar:
+                                    adv.add(S.tag)
+                                else:
+                                    err = "re-binds the head of side %s from the wrong iterator" % S.tag
+                    elif isinstance(st.targets[0], ast.Tuple) and \
+                            (A.head in [text(e) for e in st.targets[0].elts] or
+                             B.head in [text(e) for e in st.targets[0].elts]):
+                        names = [text(e) for e in st.targets[0].elts]
+                        v = st.value
+                        d = fdefs.get(v.func.id) if isinstance(v, ast.Call) and \
+                            isinstance(v.func, ast.Name) else None
+                        r = _succ_next_def(d) if d is not None else None
+                        if cond or r is None or \
+                                names != [A.head, A.payload, B.head, B.payload] or \
+                                [text(a) for a in v.args] != [A.itvar, A.head, A.payload,
+                                                              B.itvar, B.head, B.payload]:
+                            err = "re-binds the heads through `%s`, which cannot be read" % text(v)
+                        elif not r[1]:
+                            err = "re-binds the heads with permuted values"
+                        else:
+                            adv.update(r[0])
+                    continue
+                if isinstance(st, ast.If):
+                    c = text(st.test)
+                    visit(st.body, cond or c)
+                    visit(st.orelse, cond or ("not " + c))
+                elif isinstance(st, (ast.While, ast.For, ast.With, ast.Try)):
+                    for fld in ("body", "orelse", "finalbody"):
+                        visit(getattr(st, fld, []) or [], cond or "a loop")
+        visit(spec, None)
+        # the emitted coordinate
+        ys = [n for n in _walk(spec) if isinstance(n, ast.Yield)]
+        coord = None
+        if len(ys) == 1 and isinstance(ys[0].value, ast.Tuple) and ys[0].value.elts:
+            e = ys[0].value.elts[0]
+            for _ in range(4):
+                if isinstance(e, ast.IfExp):
+                    r = simplify(e.test, decide)
+                    if isinstance(r, bool):
+                        e = e.body if r else e.orelse
+                        continue
+                if isinstance(e, ast.Call) and isinstance(e.func, ast.Name) and \
+                        e.func.id in fdefs and not e.keywords:
+                    d = fdefs[e.func.id]
+                    body = [b for b in d.body if not (isinstance(b, ast.Expr) and
+                                                      isinstance(b.value, ast.Constant))]
+                    ps = [a.arg for a in d.args.args]
+                    if len(body) == 1 and isinstance(body[0], ast.Return) and \
+                            isinstance(body[0].value, ast.Name) and \
+                            body[0].value.id in ps and len(ps) == len(e.args):
+                        e = e.args[ps.index(body[0].value.id)]
+                        continue
+                break
+            coord = text(e)
+        out[rel] = (err if err else adv, coord, spec[0] if spec else loop)
+    return out
+
+
+
 def _arity_defs(ctx, f, name):
     """{'eq'|'lt'|'gt' (len_a ? len_b): FunctionDef} for the three
     definitions of a helper under the arity split."""
@@ -862,85 +1076,21 @@ def _arity_defs(ctx, f, name):
     return out
 
 
-def _succ_next_table(ctx, f, stmts, A, B):
+def _succ_next_table(ctx, f, stmts, A, B, arity):
     R = "C04.R3"
-    defs = [n for n in f.own_nodes() if isinstance(n, ast.FunctionDef)
-            and n.name == "succ_next"]
-    if len(defs) != 3:
-        ctx.bad(R, f, stmts[0], "__and__: expected three arity-dependent "
-                "definitions of succ_next, found %d" % len(defs),
-                text_="__and__ eq advance")
-        return
-    # the call site must rebind all four head variables from succ_next
-    call_ok = False
-    for n in _walk(stmts):
-        if isinstance(n, ast.Assign) and isinstance(n.targets[0], ast.Tuple) and \
-                isinstance(n.value, ast.Call) and text(n.value.func) == "succ_next":
-            names = [text(e) for e in n.targets[0].elts]
-            args = [text(a) for a in n.value.args]
-            if names == [A.head, A.payload, B.head, B.payload] and \
-                    args == [A.itvar, A.head, A.payload, B.itvar, B.head, B.payload]:
-                call_ok = True
-    if not call_ok:
-        ctx.bad(R, f, stmts[0], "__and__: the == branch does not rebind "
-                "(a_coord, a_payload, b_coord, b_payload) from succ_next(a, "
-                "a_coord, a_payload, b, b_coord, b_payload)",
-                text_="__and__ eq advance")
-        return
     want = {"eq": {"A", "B"}, "lt": {"B"}, "gt": {"A"}}
-    seen = {}
-    for d in defs:
-        rel = _len_rel(ctx, f, d, A, B)
-        ret = [x for x in ast.walk(d) if isinstance(x, ast.Return)]
-        if rel is None or len(ret) != 1 or not isinstance(ret[0].value, ast.Tuple):
-            ctx.bad(R, f, d, "__and__: cannot classify this succ_next "
-                    "definition", text_="succ_next shape")
-            return
-        p = d.args.args
-        names = [a.arg for a in p]
-        adv = set()
-        elts = ret[0].value.elts
-        flat = []
-        for e in elts:
-            if isinstance(e, ast.Starred) and isinstance(e.value, ast.Call) and \
-                    text(e.value.func) == "_get_next" and e.value.args:
-                flat.append(("next", text(e.value.args[0])))
-                flat.append(("next2", text(e.value.args[0])))
-            else:
-                flat.append(("keep", text(e)))
-        if len(flat) != 4 or len(names) != 6:
-            ctx.bad(R, f, d, "__and__: succ_next must return four values",
-                    text_="succ_next shape")
-            return
-        # positions 0,1 = A ; 2,3 = B
-        okshape = True
-        for i, (side, base) in enumerate((("A", 0), ("A", 0), ("B", 3), ("B", 3))):
-            kind, val = flat[i]
-            if kind.startswith("next"):
-                if val != names[base]:
-                    okshape = False
-                adv.add(side)
-            else:
-                exp = names[base + 1 + (i % 2)]
-                if val != exp:
-                    okshape = False
-        seen[rel] = (adv, okshape, d)
     for rel, w in want.items():
-        if rel not in seen:
-            ctx.bad(R, f, stmts[0], "__and__: no succ_next for the arity case "
-                    "len_a %s len_b" % {"eq": "==", "lt": "<", "gt": ">"}[rel],
-                    text_="succ_next %s" % rel)
-            continue
-        adv, okshape, d = seen[rel]
-        if adv == w and okshape:
-            ctx.ok(R, f, d, "arity case %s: advances %s" % (rel, sorted(adv)),
+        adv, coord, anchor = arity[rel]
+        sym = {"eq": "==", "lt": "<", "gt": ">"}[rel]
+        if adv == w:
+            ctx.ok(R, f, anchor, "arity case %s: a match advances %s" % (rel, sorted(adv)),
                    text_="succ_next %s" % rel)
         else:
-            ctx.bad(R, f, d, "__and__: for len_a %s len_b a match must advance "
+            ctx.bad(R, f, anchor, "__and__: for len_a %s len_b a match must advance "
                     "%s (the shorter, ANY-padded side may match several longer "
-                    "coordinates); this succ_next advances %s%s"
-                    % ({"eq": "==", "lt": "<", "gt": ">"}[rel], sorted(w),
-                       sorted(adv), "" if okshape else " with permuted values"),
+                    "coordinates); it %s"
+                    % (sym, sorted(w), adv if isinstance(adv, str) else
+                       "advances %s" % (sorted(adv) or "nothing")),
                     text_="succ_next %s" % rel)
 
 
@@ -994,31 +1144,24 @@ def _len_rel(ctx, f, d, A, B):
         return None
 
 
-def _succ_yield_table(ctx, f, A, B):
+def _succ_yield_table(ctx, f, A, B, arity):
+    """The coordinate a match emits, per arity case: the longer side's (the
+    shorter side's is padded with ANY)."""
     R = "C04.R5"
-    defs = [n for n in f.own_nodes() if isinstance(n, ast.FunctionDef)
-            and n.name == "succ_yield"]
-    want = {"eq": 0, "lt": 1, "gt": 0}   # index of the returned parameter
-    for d in defs:
-        rel = _len_rel(ctx, f, d, A, B)
-        ret = [x for x in ast.walk(d) if isinstance(x, ast.Return)]
-        names = [a.arg for a in d.args.args]
-        if rel is None or len(ret) != 1 or len(names) != 2:
-            ctx.bad(R, f, d, "__and__: cannot classify succ_yield", text_="succ_yield shape")
-            continue
-        got = text(ret[0].value)
-        exp = names[want[rel]]
-        if got == exp or (rel == "eq" and got in names):
-            ctx.ok(R, f, d, "arity case %s yields the longer side's coordinate"
+    want = {"eq": (A.head, B.head), "lt": (B.head,), "gt": (A.head,)}
+    ok = True
+    for rel, w in want.items():
+        adv, coord, anchor = arity[rel]
+        if coord in w:
+            ctx.ok(R, f, anchor, "arity case %s yields the longer side's coordinate"
                    % rel, text_="succ_yield %s" % rel)
         else:
-            ctx.bad(R, f, d, "__and__: for len_a %s len_b the emitted coordinate "
-                    "must be the longer side's (%s), succ_yield returns %s"
-                    % ({"eq": "==", "lt": "<", "gt": ">"}[rel], exp, got),
+            ok = False
+            ctx.bad(R, f, anchor, "__and__: for len_a %s len_b the emitted coordinate "
+                    "must be the longer side's (%s), the match emits %s"
+                    % ({"eq": "==", "lt": "<", "gt": ">"}[rel], "/".join(w), coord),
                     text_="succ_yield %s" % rel)
-    if len(defs) != 3:
-        ctx.bad(R, f, f.node, "__and__: expected three succ_yield definitions",
-                text_="succ_yield count")
+    return ok
 
 
 def get_next(ctx):
